@@ -6,6 +6,7 @@ import PtnModel.Model.Ops
 the first error, exactly as the harness does (`harness/history.py`: "the model stops at its first error; the
 implementation history stops at its first error, too").  Core Lean only.
 -/
+set_option linter.unusedSectionVars false
 namespace Ptn.Hist
 
 variable {α ρ : Type}
@@ -14,8 +15,8 @@ variable {α ρ : Type}
 kernels per call) -/
 abbrev History (α ρ : Type) := List (StepKernels α ρ × HOp α ρ)
 
-variable [OfNat α 0] [OfNat α 1] [Add α] [Mul α] [Neg α] [DecidableEq α] [HasConj α]
-  [RealLike ρ α] [OfNat ρ 0] [OfNat ρ 1] [Add ρ] [Mul ρ] [Div ρ] [Neg ρ] [LT ρ] [DecidableEq ρ] [DecidableLT ρ]
+variable [OfNat α 0] [OfNat α 1] [Add α] [Mul α] [Sub α] [Neg α] [Div α] [DecidableEq α] [HasConj α]
+  [RealLike ρ α] [OfNat ρ 0] [OfNat ρ 1] [Add ρ] [Mul ρ] [Div ρ] [Neg ρ] [NatCast ρ] [LT ρ] [DecidableEq ρ] [DecidableLT ρ]
 
 /-- execute a history; the scalar outputs of the calls are dropped -/
 def run (p : Pool α) : History α ρ → Except Err (Pool α)
